@@ -211,6 +211,17 @@ def firing_mutants(src: dict[str, str]) -> list[dict]:
             return n
         m += _each(rel, src, lambda n: isinstance(n, ast.Assign) and isinstance(n.targets[0], ast.Attribute) and n.targets[0].attr == "map"
                    and isinstance(n.value, ast.List), shift, "C03", "map start + 1", 1)
+    # C03 (LINECAP): the cursor is moved one line too far / the clamp of the empty last list item is dropped
+    for rel in ("rules_block/paragraph.py", "rules_block/hr.py", "rules_block/code.py", "rules_block/html_block.py"):
+        def plus1(n):
+            n = copy.deepcopy(n)
+            n.value = ast.BinOp(left=n.value, op=ast.Add(), right=ast.Constant(value=1))
+            return n
+        m += _each(rel, src, lambda n: isinstance(n, ast.Assign) and U(n.targets[0]) == "state.line", plus1, "C03", "state.line = <cursor> + 1", 1)
+    m += _each("rules_block/list.py", src, lambda n: isinstance(n, ast.Call) and isinstance(n.func, ast.Name) and n.func.id == "min"
+               and "state.line" in U(n), lambda n: n.args[0], "C03", "min(state.line + 2, endLine) -> state.line + 2", 1)
+    m += _each("rules_block/table.py", src, lambda n: isinstance(n, ast.If) and U(n.test) == "startLine + 2 > endLine", lambda n: ast.Pass(),
+               "C03", "`startLine + 2 > endLine` guard dropped in table", 1)
     # C03: map written before the cursor is advanced (swap with the state.line store is approximated by reading startLine)
     # C01: try/except IndexError removed
     for rel in ("rules_block/blockquote.py", "rules_block/fence.py", "rules_block/hr.py", "rules_block/list.py"):
@@ -404,6 +415,44 @@ def _refactor_variants(src: dict[str, str]) -> list[tuple[str, object]]:
     for patch in sorted((VERIF / "refactors").glob("*/patch.diff")):
         out.append((f"refactor {patch.parent.name}", (lambda patch=patch: _patched(src, patch))))
     return out
+
+
+def advisory(pid: str, jobs_n: int = 16) -> dict:
+    """The part of the self-test that concerns one property, run by `check <pid> --tier thorough` after the analysis:
+    variants that must make this property's check fire (its mutants, its reverted fixes, the seeded changes it is recorded to
+    detect) and variants on which it must stay silent (whole-tree rewrites and the refactoring corpus).  Advisory: the outcome
+    is reported and written to the evidence file; it validates the checker and never changes the verdict on the tree."""
+    src = read_tree()
+    jobs = []
+    for name, fn in SILENT.items():
+        jobs.append(("silent", name, (lambda fn=fn: fn(src)), [pid]))
+    for (name, mk) in _refactor_variants(src):
+        jobs.append(("silent", name, mk, [pid]))
+    for mu in firing_mutants(src):
+        if mu["pid"] == pid:
+            jobs.append(("fire", f"{mu['pid']}: {mu['desc']}", mu["make"], [pid]))
+    for (name, p_, mk) in _revert_variants(src):
+        if p_ == pid:
+            jobs.append(("fire", name, mk, [pid]))
+    for d in sorted((VERIF / "seeded").glob("*/meta.json")):
+        meta = json.loads(d.read_text())
+        if pid in meta.get("detected_by", []):
+            patch = d.parent / "patch.diff"
+            jobs.append(("fire", f"seed {meta['id']}", (lambda patch=patch: _patched(src, patch)), [pid]))
+    results = []
+    with cf.ThreadPoolExecutor(jobs_n) as ex:
+        futs = [ex.submit(run_variant, k, n, src, fn, pids) for (k, n, fn, pids) in jobs]
+        for fu in cf.as_completed(futs):
+            results.append(fu.result())
+    fire = [r for r in results if r["kind"] == "fire" and r["status"] != "skipped"]
+    silent = [r for r in results if r["kind"] == "silent" and r["status"] != "skipped"]
+    return {
+        "must_fire": len(fire), "fired": sum(r["status"] == "ok" for r in fire),
+        "must_stay_silent": len(silent), "silent": sum(r["status"] == "ok" for r in silent),
+        "skipped": [f"{r['name']}: {r.get('why', '')}" for r in results if r["status"] == "skipped"],
+        "failed": [f"{r['kind']} {r['name']}: {r.get('why', '')}" for r in results if r["status"] == "FAILED"],
+        "fired_names": sorted(r["name"] for r in fire if r["status"] == "ok"),
+    }
 
 
 def main(argv: list[str] | None = None) -> int:
